@@ -187,6 +187,9 @@ class Analysis:
         if facts is None:
             facts = self.facts_valid_at(b, block)
         t0 = strip_casts(t)
+        from guards import validated_by_ctor, facts_at as _facts_at
+        if block is not None and validated_by_ctor(_facts_at(b, block), t0):
+            return True             # accepted as a width by a validating constructor (`IntVector::new(w)?`)
         for f in facts:
             if f[0] == "bool":
                 # predicate summaries: a crate-local bool function whose `true` implies bounds on its arguments
